@@ -5,8 +5,8 @@ export GOFLAGS=-mod=mod GOPROXY=off GOSUMDB=off GOTOOLCHAIN=local
 WT=/tmp/seedconfirm
 git -C /repo worktree remove --force $WT 2>/dev/null
 git -C /repo worktree add -q --detach $WT HEAD || exit 1
-for d in /tmp/seed/C*.out/change*; do
-  prop=$(basename $(dirname $d) .out); n=$(basename $d); id="$prop-$n"
+for d in ${SEED_SRC:-/tmp/seed}/C*.out/change*; do
+  prop=$(basename $(dirname $d) .out); n=$(basename $d); id="$prop-${SEED_TAG:-}$n"
   [ -f $d/patch.diff ] && [ -f $d/demo_test.go ] || { echo "$id: incomplete deliverable"; continue; }
   pkg=$(grep -m1 '^package ' $d/demo_test.go | awk '{print $2}')
   case "$pkg" in
